@@ -349,9 +349,6 @@ def jobs(tier):
                 J.append(Job("H3_plane:%s:1d:2box:3ops:%d" % (c, k), "h3_plane", {"config": c, "nbox": 2, "seqs": part, "oned": True}, 150))
         # insertion order under re-insertion: every add/remove sequence of 5 operations over two boxes without a query (cheap: no symbolic query box)
         J.append(Job("H3_plane:pos:1d:2box:order", "h3_plane", {"config": "pos", "nbox": 2, "seqs": [q for q in op_sequences(2, 5) if "f" not in q], "oned": True}, 150))
-        for c in ("skew", "skew2"):
-            for k in range(4):
-                J.append(Job("H3_plane:%s:2d:1box:2ops:%d" % (c, k), "h3_plane", {"config": c, "nbox": 1, "seqs": [["a0", "f"]], "part": [k, 4, 9]}, 300))
         for c in ("off", "tiny", "skew", "skew2"):
             J.append(Job("H3_plane:%s:1d:1box:2ops" % c, "h3_plane", {"config": c, "nbox": 1, "seqs": [["a0", "f"]], "oned": True}, 100))
         for k in range(6):
@@ -365,6 +362,9 @@ def jobs(tier):
                 J.append(Job("H3_plane:%s:1d:2box:4ops:%d" % (c, k), "h3_plane", {"config": c, "nbox": 2, "seqs": part, "oned": True}, 900))
             for k in range(4):
                 J.append(Job("H3_plane:%s:2d:1box:2ops:%d" % (c, k), "h3_plane", {"config": c, "nbox": 1, "seqs": [["a0", "f"]], "part": [k, 4, 9]}, 600))
+        for c in ("skew", "skew2"):          # two-dimensional family over the rectangular index bounds (about 20000 paths each: thorough tier only; the quick tier has the 1d family)
+            for k in range(8):
+                J.append(Job("H3_plane:%s:2d:1box:2ops:%d" % (c, k), "h3_plane", {"config": c, "nbox": 1, "seqs": [["a0", "f"]], "part": [k, 8, 10]}, 900))
         for k in range(16):
             J.append(Job("H3_plane:wide:1d:2box:3ops:%d" % k, "h3_plane", {"config": "wide", "nbox": 2, "seqs": [["a0", "a1", "f"]], "oned": True, "part": [k, 16, 10]}, 900))
         for k in range(16):
